@@ -329,6 +329,11 @@ theorem nexts_restart_ctx (n : Nat) (t : Tokenizer) (inv : Inv t) (herr : t.err 
     (hn : 0 < n) : CoreT True t.rawE (nexts n t) (nexts n (restartCtx t)) :=
   (nexts_sim n t (restartCtx t) (pre_restart_ctx t inv herr hc) (restartCtx_inv t inv hc) (Or.inl trivial)).2 hn
 
+/-- … attributes included: the attribute spans of a tag token are those of the restarted tokenizer, shifted -/
+theorem nexts_restart_ctxA (n : Nat) (t : Tokenizer) (inv : Inv t) (herr : t.err = false) (hc : RawCtx t.rawTag)
+    (hn : 0 < n) : CoreTA True t.rawE (nexts n t) (nexts n (restartCtx t)) :=
+  nexts_simA n t (restartCtx t) (pre_restart_ctx t inv herr hc) (restartCtx_inv t inv hc) (Or.inl trivial) hn
+
 theorem next_restart_ctx (t : Tokenizer) (inv : Inv t) (herr : t.err = false) (hc : RawCtx t.rawTag) :
     CoreT True t.rawE (next t) (next (restartCtx t)) :=
   next_sim _ _ (pre_restart_ctx t inv herr hc) (restartCtx_inv t inv hc) (Or.inl trivial)
